@@ -1,12 +1,15 @@
+pub mod crash;
 pub mod seq;
 
 use crate::runner::Engine;
 
 static SEQ: seq::SeqEngine = seq::SeqEngine;
+static CRASH: crash::CrashEngine = crash::CrashEngine;
 
 pub fn engine_by_name(name: &str) -> &'static dyn Engine {
     match name {
         "seq" => &SEQ,
+        "crash" => &CRASH,
         other => {
             eprintln!("unknown engine {other}");
             std::process::exit(2);
@@ -18,6 +21,7 @@ pub fn engine_by_name(name: &str) -> &'static dyn Engine {
 pub fn engine_for(property: &str) -> &'static dyn Engine {
     match property {
         "C01" | "C10" | "C11" | "C12" | "C13" | "C14" | "C16" | "C05" => &SEQ,
+        "C02" | "C03" | "C04" => &CRASH,
         other => {
             eprintln!("no engine for property {other}");
             std::process::exit(2);
@@ -55,6 +59,9 @@ pub fn plan(property: &str) -> Option<Plan> {
         "C13" => (vec![stage("seq", "C13", 24_000, 300_000)], "exploration"),
         "C14" => (vec![stage("seq", "C14", 24_000, 300_000)], "exploration"),
         "C16" => (vec![stage("seq", "C16", 12_000, 200_000)], "exploration"),
+        "C02" => (vec![stage("crash", "C02", 6_000, 60_000)], "fault_enumeration"),
+        "C03" => (vec![stage("crash", "C03", 6_000, 60_000)], "fault_enumeration"),
+        "C04" => (vec![stage("crash", "C04", 2_000, 30_000)], "fault_enumeration"),
         _ => return None,
     };
     Some(Plan {
